@@ -585,3 +585,52 @@ def replay_file(path):
         print(f"KNOWN-FINDING: property={prop} {fid}")
     print(f"replay {path}: property holds on this case")
     return 0
+
+
+# --------------------------------------------------------------------------------------
+# atheris campaigns (thorough tier): run in a subprocess, merge its summary into the task
+# --------------------------------------------------------------------------------------
+def run_fuzz_campaign(ctx, target, runs, seed, empty_corpus=False):
+    import shutil
+    import subprocess
+    import tempfile
+    deps = os.path.join(VERIF_DIR, ".deps")
+    try:
+        sys.path.insert(0, deps)
+        import atheris  # noqa
+    except Exception:  # noqa
+        ctx.note("atheris not importable: fuzz campaign skipped (install it with MANIFEST.setup_cmd)")
+        ctx.label("fuzz:skipped")
+        return
+    finally:
+        if deps in sys.path:
+            sys.path.remove(deps)
+    out = tempfile.mkdtemp(prefix="vffuzz-", dir="/tmp")
+    try:
+        env = dict(os.environ, PYTHONHASHSEED="0", PYTHONDONTWRITEBYTECODE="1",
+                   PYTHONPATH=deps + os.pathsep + VERIF_DIR + os.pathsep + os.environ.get("PYTHONPATH", ""))
+        cmd = [sys.executable, "-m", "vf.fuzz.run", target, "--runs", str(runs), "--seed", str(seed % (2 ** 31) or 1),
+               "--out", out] + (["--empty-corpus"] if empty_corpus else [])
+        r = subprocess.run(cmd, cwd=VERIF_DIR, env=env, capture_output=True, text=True)
+        path = os.path.join(out, "summary.json")
+        if not os.path.exists(path):
+            raise HarnessError(f"fuzz campaign produced no summary: {r.stderr[-1500:]}")
+        with open(path) as fh:
+            s = json.load(fh)
+        ctx.ev(int(s["evaluations"]))
+        for k, v in s["labels"].items():
+            ctx.label(k, v)
+        ctx.label(f"fuzz:{target}:executions", int(s["executions"]))
+        ctx.label(f"fuzz:{target}:{'empty' if empty_corpus else 'seeded'}_corpus_campaigns")
+        for d in s["digests"]:
+            ctx.digests.add(bytes.fromhex(d))
+        for k, v in s.get("known_hits", {}).items():
+            ctx.known_hits[k] += v
+        for smp in s.get("samples", [])[:2]:
+            ctx.samples.append({"tag": "atheris", "case": smp.get("case")})
+        for v in s["violations"]:
+            ctx.violations.append(v)
+        if r.returncode != 0 and not s["violations"]:
+            raise HarnessError(f"fuzz process exited {r.returncode} without a recorded violation: {r.stderr[-1500:]}")
+    finally:
+        shutil.rmtree(out, ignore_errors=True)
